@@ -926,7 +926,12 @@ def transform(node, *callbacks):
                     isinstance(prev, ParsedObject)
                     and isinstance(node, ParsedObject)
                     and not node._metadata
+                    and prev._metadata
                 ):
+                    # The replacement may be an object of the input tree (a
+                    # child of the node, say), which must not change. So the
+                    # metadata goes to a copy of it.
+                    node = node._replace()
                     node._metadata.update(prev._metadata)
 
         return node
